@@ -9,6 +9,7 @@ type AnyBatch struct {
 	DV     *DVCase     `json:"dv,omitempty"`
 	Syn    *SynCase    `json:"syn,omitempty"`
 	Vec    *VecCase    `json:"vec,omitempty"`
+	Big    *BigCase    `json:"big,omitempty"`
 }
 
 func (a AnyBatch) Batch() spec.Batch {
@@ -23,6 +24,8 @@ func (a AnyBatch) Batch() spec.Batch {
 		return a.Syn.Batch()
 	case a.Vec != nil:
 		return a.Vec.Batch()
+	case a.Big != nil:
+		return a.Big.Batch()
 	}
 	return spec.Batch{}
 }
@@ -37,6 +40,8 @@ func (a AnyBatch) Mode() uint32 {
 		return a.Syn.Mode
 	case a.Vec != nil:
 		return a.Vec.Mode
+	case a.Big != nil:
+		return a.Big.Mode
 	}
 	return 1026
 }
@@ -53,6 +58,8 @@ func (a AnyBatch) Key() string {
 		return a.Syn.Key()
 	case a.Vec != nil:
 		return a.Vec.Key()
+	case a.Big != nil:
+		return a.Big.Key()
 	}
 	return "empty"
 }
@@ -67,7 +74,7 @@ func AllFamilies(tier string, withVectors bool, emit func(AnyBatch)) {
 		if c.N >= 2 {
 			special := false
 			for _, m := range c.Cells {
-				if m == 5 || m == 7 || m == 8 || m == 10 {
+				if m == 5 || m == 7 || m == 8 || m == 10 || m == 11 {
 					special = true
 				}
 			}
@@ -102,6 +109,10 @@ func AllFamilies(tier string, withVectors bool, emit func(AnyBatch)) {
 	SynBatches(tier, func(c SynCase) {
 		cc := c
 		emit(AnyBatch{Syn: &cc})
+	})
+	BigBatches(tier, func(c BigCase) {
+		cc := c
+		emit(AnyBatch{Big: &cc})
 	})
 	if withVectors {
 		VecBatches(tier, func(c VecCase) {
